@@ -28,7 +28,31 @@ def load_catalogue():
                 for m in json.load(f):
                     m.setdefault("source", fn)
                     cat.append(m)
+    # one whole-tree equivalent per property: every source file re-emitted by ast.unparse
+    # (layout, comments, quote style, redundant parentheses, number spelling all change)
+    for p in sorted({m["prop"] for m in cat}):
+        cat.append({"id": "%s-eq-reformat" % p.lower(), "prop": p, "kind": "equiv", "transform": "unparse", "edits": [],
+                    "why": "ast.unparse of every module: behaviour identical, text different", "source": "builtin"})
     return cat
+
+
+def reformat_tree(dest):
+    import ast
+    for base in ("hypnotoad", "examples"):
+        for dp, dn, fn in os.walk(os.path.join(dest, base)):
+            if "test_suite" in dp:
+                continue
+            for f in fn:
+                if f.endswith(".py"):
+                    p = os.path.join(dp, f)
+                    with open(p) as fh:
+                        src = fh.read()
+                    try:
+                        out = ast.unparse(ast.parse(src)) + "\n"
+                    except SyntaxError:
+                        continue
+                    with open(p, "w") as fh:
+                        fh.write(out)
 
 
 def make_copy(root, dest):
@@ -44,7 +68,7 @@ def run_one(m, root):
     tmp = tempfile.mkdtemp(prefix="hvst_")
     try:
         make_copy(root, tmp)
-        edits = m.get("edits") or [{"file": m["file"], "old": m["old"], "new": m["new"]}]
+        edits = m["edits"] if "edits" in m else [{"file": m["file"], "old": m["old"], "new": m["new"]}]
         for e in edits:
             p = os.path.join(tmp, e["file"])
             with open(p) as f:
@@ -53,6 +77,8 @@ def run_one(m, root):
                 return {"id": m["id"], "status": "skipped", "why": "context occurs %d times in %s" % (s.count(e["old"]), e["file"])}
             with open(p, "w") as f:
                 f.write(s.replace(e["old"], e["new"]))
+        if m.get("transform") == "unparse":
+            reformat_tree(tmp)
         env = dict(os.environ)
         env["VERIF_REPO"] = tmp
         env["HV_EVIDENCE_DIR"] = os.path.join(tmp, "_ev")
